@@ -32,6 +32,24 @@ def main(argv):
         pass
     rep = Report(prop, level)
     try:
+        # guard of the guard: the interpreter must agree with CPython on the concrete self-test scripts (2-3 s)
+        from .pyvc import selftest
+        for msg in selftest.main(env.REPO, verbose=False):
+            rep.error(msg)
+        rep.extra['encoder_selftest'] = {'scripts': len(selftest.SCRIPTS), 'result': 'agree' if not rep.errors else 'DISAGREE'}
+    except Exception:
+        rep.error('encoder self-test crashed: ' + traceback.format_exc()[-1500:])
+    try:
+        import subprocess
+        r = subprocess.run([os.path.join(env.VERIF, 'bin', 'lemmas')], capture_output=True, text=True, timeout=120)
+        ok = r.returncode == 0 and 'error' not in (r.stdout + r.stderr)
+        rep.extra['background_lemmas_lean'] = 'checked (lean/Background.lean)' if ok else 'NOT checked: ' + (r.stdout + r.stderr)[:300]
+        if not ok:
+            rep.assume('lean/Background.lean could not be re-checked in this run: the background lemmas are assumptions')
+    except Exception as e:
+        rep.extra['background_lemmas_lean'] = 'NOT checked: %r' % (e,)
+        rep.assume('lean not available: the background lemmas of lean/Background.lean are assumptions in this run')
+    try:
         mod.run(rep)
     except Exception:
         rep.error('check crashed: ' + traceback.format_exc()[-3000:])
